@@ -1,32 +1,44 @@
 #!/usr/bin/env python3
-"""Apply a seeded change to /repo, run checks, undo.  usage: try_seed.py <diff> <prop> [<prop>...] [--tier T]"""
+"""Apply a seeded change to /repo (or, with ISO=<dir>, to the isolated copy made by tools/iso_setup.sh),
+run checks, undo.  usage: [ISO=/tmp/mx] try_seed.py <diff> <prop> [<prop>...] [--tier T] [--seed N]"""
 import subprocess, sys, time, os, re
 diff = sys.argv[1]
 args = sys.argv[2:]
 tier = "quick"
+extra = ""
 if "--tier" in args:
     i = args.index("--tier"); tier = args[i+1]; args = args[:i] + args[i+2:]
+if "--seed" in args:
+    i = args.index("--seed"); extra += " --seed " + args[i+1]; args = args[:i] + args[i+2:]
 props = args
+ISO = os.environ.get("ISO")
+REPO = ISO + "/repo" if ISO else "/repo"
+VERIF = ISO + "/verif" if ISO else "/verif"
 def sh(cmd, **kw):
     return subprocess.run(cmd, shell=True, stdout=subprocess.PIPE, stderr=subprocess.STDOUT, text=True, **kw)
-st = sh("git -C /repo status --porcelain --untracked-files=no")
+def revert():
+    sh("git -C %s reset -q; git -C %s checkout -- . ; rm -f %s/src/*.rej %s/src/*.orig" % (REPO, REPO, REPO, REPO))
+st = sh("git -C %s status --porcelain --untracked-files=no" % REPO)
 if st.stdout.strip():
     print("REPO NOT CLEAN:", st.stdout); sys.exit(3)
-r = sh("git -C /repo apply -3 %s" % diff)
+r = sh("git -C %s apply -3 %s" % (REPO, diff))
 if r.returncode != 0:
-    r2 = sh("cd /repo && patch -p1 --no-backup-if-mismatch < %s" % diff)
+    r2 = sh("cd %s && patch -p1 --no-backup-if-mismatch < %s" % (REPO, diff))
     if r2.returncode != 0:
-        print("APPLY FAILED", r.stdout[-500:], r2.stdout[-500:]); sh("git -C /repo reset -q; git -C /repo checkout -- . ; rm -f /repo/src/*.rej /repo/src/*.orig"); sys.exit(3)
+        print("APPLY FAILED", r.stdout[-500:], r2.stdout[-500:]); revert(); sys.exit(3)
 try:
     for p in props:
         t0 = time.time()
-        c = sh("cd /verif && ./check %s --tier %s" % (p, tier))
+        c = sh("cd %s && ./check %s --tier %s%s" % (VERIF, p, tier, extra))
         viol = re.findall(r"^VIOLATION.*$", c.stdout, re.M)
         kinds = sorted(set(re.findall(r"^  ([A-Za-z]+):", c.stdout, re.M)))
         print("%s exit=%d %.0fs violations=%d kinds=%s" % (p, c.returncode, time.time()-t0, len(viol), kinds))
         if c.returncode == 2:
             print(c.stdout[-1500:])
 finally:
-    sh("git -C /repo reset -q; git -C /repo checkout -- .")
+    revert()
     # remove replay files produced while the seed was applied
-    sh("cd /verif && git clean -fdq replays/ && git checkout -q -- evidence/")
+    if ISO:
+        sh("cd %s && rm -rf replays/found && rsync -a --delete /verif/replays/ replays/ && rsync -a --delete /verif/evidence/ evidence/" % VERIF)
+    else:
+        sh("cd /verif && git clean -fdq replays/ && git checkout -q -- evidence/")
